@@ -3,6 +3,7 @@ CONSTANTS
   Sessions = {"L1", "M1", "M2"}
   Legacy = {"L1"}
   InitOn = {}
+  InitSub = {}
   Kinds = {"tools", "prompts"}
   NotifOf <- NotifStd
   Uris = {"u1"}
